@@ -548,6 +548,12 @@ def run_property(prop, tier):
         shards_completed=len(results), coverage_gaps=gaps,
         known_findings_hit=known_hits, notes=notes[:20])
     cov.update(extra)
+    if getattr(mod, 'EVALUATIONS_FROM_COUNT', None):
+        # e.g. C06: one evaluation = one crash point, not one traced run
+        cov['cases_generated'] = int(evaluations)
+        cov['evaluations'] = int(counts.get(mod.EVALUATIONS_FROM_COUNT, 0))
+    for k in getattr(mod, 'COVERAGE_FROM_COUNTS', []):
+        cov[k] = int(counts.get(k, 0))
     if exhaustive is not None:
         cov['exhaustive'] = bool(exhaustive)
     if hasattr(mod, 'EXHAUSTIVE_NOTE'):
